@@ -149,6 +149,8 @@ struct Seen {
     bytes_checked: u64,
     contract_skips: u64,
     conversions: u64,
+    trickle_cases: u64,
+    read_half_at_eof: u64,
 }
 
 fn payload(n: usize, tag: u8, lines: bool) -> Vec<u8> {
@@ -178,6 +180,18 @@ where
     let h = vh_core::fnv_str(&format!("{:?}{:?}", case.ops, case.wscript));
     let xform_kind = (h >> 5) % 4;
     let xform_at = ((h >> 13) % (case.ops.len() as u64 + 1)) as usize;
+    // in a third of the cases the read half has already seen the end of the stream (a peer that half-closed) before
+    // anything is written: the sink's obligations do not depend on that
+    if (h >> 21) % 3 == 0 {
+        for k in 0..4 {
+            let (w, _) = new_waker(90_000 + k);
+            let mut cx = std::task::Context::from_waker(&w);
+            if let Poll::Ready(None) = futures_core::Stream::poll_next(Pin::new(&mut framed), &mut cx) {
+                seen.read_half_at_eof += 1;
+                break;
+            }
+        }
+    }
     let mut expected: Vec<u8> = Vec::new();
     let mut may_send = false;
     let mut tag = 0u8;
@@ -498,7 +512,17 @@ pub fn run(args: &Args, rep: &mut Report) {
             ops.push(Op::Close);
         }
         let wl = rng.usize(40);
-        let wscript: Vec<WriteStep> = (0..wl)
+        // one case in eight: a transport that trickles (33..200 consecutive small accepted writes, no Pending between them)
+        let trickle = rng.chance(1, 8);
+        if trickle {
+            seen.trickle_cases += 1;
+        }
+        let wscript: Vec<WriteStep> = if trickle {
+            let n = 33 + rng.usize(170);
+            let step = 1 + rng.usize(40);
+            (0..n).map(|_| WriteStep::Accept(step)).collect()
+        } else {
+            (0..wl)
             .map(|_| match rng.usize(20) {
                 0 if rng.chance(1, 4) => WriteStep::Zero,
                 1 if rng.chance(1, 4) => WriteStep::Err(INJECTED),
@@ -507,7 +531,8 @@ pub fn run(args: &Args, rep: &mut Report) {
                 10..=12 => WriteStep::Accept(*rng.pick(&[1usize, 1023, 1024, 1025, 8191, 8192, 8193])),
                 _ => WriteStep::Accept(usize::MAX),
             })
-            .collect();
+            .collect()
+        };
         let fscript: Vec<CtlStep> = (0..rng.usize(4)).map(|_| if rng.chance(1, 2) { CtlStep::Pending } else { CtlStep::Ok }).collect();
         let sscript: Vec<CtlStep> = (0..rng.usize(3)).map(|_| if rng.chance(1, 2) { CtlStep::Pending } else { CtlStep::Ok }).collect();
         let case = Case {
@@ -543,6 +568,8 @@ pub fn run(args: &Args, rep: &mut Report) {
     rep.add("obs_write_zero_errors", seen.write_zero_errors);
     rep.add("obs_transport_errors", seen.transport_errors);
     rep.add("obs_mid_sequence_conversions", seen.conversions);
+    rep.add("obs_trickling_transport_cases", seen.trickle_cases);
+    rep.add("obs_cases_with_read_half_at_eof", seen.read_half_at_eof);
     rep.add("obs_bytes_prefix_checked", seen.bytes_checked);
     rep.add("obs_contract_skipped_sends", seen.contract_skips);
 }
